@@ -55,7 +55,7 @@ CHECKS = {
    text="from_str(to_string(x)) == x, byte-stable re-serialization, README layout written by an independent emitter accepted, equal build outcome, language-equivalent automata per mode and lookahead plus equal token streams for the rebuilt scanner; Match/MatchExt/Span/Position values round-trip; README example deserializes to its two modes.",
    note="configurations are constructed with sorted transitions (ScannerMode::new debug-asserts that)", ref="5 C16"),
  "C17": dict(cat="exploration", tech="property-based testing over parametrised families of large pattern sets against closed-form longest-match expectations",
-   text="Quick: 16 generated instances with 1 000-16 000 unminimized states (50x beyond the suite). Thorough: additionally fixed instances crossing 65 535 states (lists of 65 534 / 65 537 / 66 000 / 70 000 one-character patterns, x{66000}y). Build may return Err; a panic or a wrong token stream is a violation.",
+   text="Quick: 24 generated and 24 fixed instances with up to 16 000 unminimized states (50x beyond the suite): lists, keyword sets, chains, counted repetitions that are the whole pattern, keyword pairs. Thorough: additionally fixed instances crossing 65 535 states (lists of 65 534 / 65 537 / 66 000 / 70 000 one-character patterns, all 182^2 two-letter keywords, x{66000}y, a{40000}); a failing fixed instance is reported at once. Build may return Err; a panic or a wrong token stream is a violation.",
    note="quick does not cross the 2^16 boundary (each crossing costs minutes; all build phases are quadratic); closed forms are cross-checked with the reference tokenizer on small instances", ref="5 C17"),
  "C18": dict(cat="fault_enumeration", tech="property-based testing: generated configurations exported, files parsed by a strict DOT parser and compared by content with the feature-gated automaton dump; enumerated unwritable-target faults",
    text="Exactly one well-formed file per mode; nodes = states, T<t> exactly on accepting non-start states, multiset of (source, class id, target) edges = transitions, one cluster per lookahead with T<t> and polarity containing its automaton; injected faults (missing folder, file as folder, directory as output file, over-long prefix) must give Err without panic.",
